@@ -112,6 +112,7 @@ class SimClock:
         self.reads = 0
         self.script = {}
         self.armed_at = 0
+        self.armed = False
         self.trace = []     # dates handed out since last reset_trace()
 
     def set(self, d: _dt.date):
@@ -120,9 +121,11 @@ class SimClock:
     def arm(self, nth: int, d: _dt.date):
         self.armed_at = self.reads
         self.script = {nth: d}
+        self.armed = True
 
     def disarm(self):
         self.script = {}
+        self.armed = False
 
     def reset_trace(self):
         self.trace = []
